@@ -4,6 +4,8 @@ import (
 	"fmt"
 	"strings"
 	"time"
+
+	"github.com/PowerDNS/lmdb-go/lmdb"
 )
 
 // ---------------------------------------------------------------------------
@@ -155,6 +157,46 @@ func (m *MonC06) BucketOp(f *Fleet, op *BucketOp) {
 		f.Violate(Violation{P, "image-of-one-txn", sig,
 			fmt.Sprintf("%s uploaded %s claiming LMDB transaction %d: content differs from the stored state at that transaction: %s (stored vs snapshot)", n.Name, op.Name, ref.Meta.LmdbTxnID, d[0])})
 		return
+	}
+	if !n.Native && !raced {
+		// Shadow mode: the image is taken from the shadow DBIs after the
+		// application's DBIs were mirrored into them in the same
+		// transaction, so at the claimed transaction the live entries of
+		// the snapshot are exactly the application's data.
+		for _, dbi := range sortedKeys(st.AppDBIs()) {
+			d := st.AppDBIs()[dbi]
+			if d.Flags&lmdb.DupSort != 0 {
+				continue
+			}
+			live := map[string]string{}
+			for k, v := range got[dbi] {
+				if !v.Deleted {
+					live[k] = v.Val
+				}
+			}
+			app := d.Map()
+			for _, k := range sortedKeys(app) {
+				if len(app[k]) == 0 {
+					continue // known finding empty-application-value (C11)
+				}
+				if v, ok := live[k]; !ok || v != string(app[k]) {
+					got := "no live entry"
+					if ok {
+						got = fmt.Sprintf("value %q", v)
+					}
+					f.Violate(Violation{P, "image-of-one-txn", "application-data-not-in-image",
+						fmt.Sprintf("%s uploaded %s claiming LMDB transaction %d: at that transaction the application's DBI holds %s/%q=%q, the snapshot has %s", n.Name, op.Name, ref.Meta.LmdbTxnID, dbi, k, app[k], got)})
+					return
+				}
+			}
+			for _, k := range sortedKeys(live) {
+				if _, ok := app[k]; !ok {
+					f.Violate(Violation{P, "image-of-one-txn", "application-data-not-in-image",
+						fmt.Sprintf("%s uploaded %s claiming LMDB transaction %d: the snapshot has a live %s/%q=%q which the application's DBI does not hold at that transaction", n.Name, op.Name, ref.Meta.LmdbTxnID, dbi, k, live[k])})
+					return
+				}
+			}
+		}
 	}
 	// DBI set and flags
 	wantDBIs := map[string]uint{}
